@@ -211,6 +211,7 @@ Definition path_eqb : path -> path -> bool := list_eqb text_eqb.
 (** ** Instructions of a history *)
 Inductive op :=
 | OEnv (t : target) (m : modifier)             (* env [-of act|!act] NAME = VALUE  /  env ... unset NAME *)
+| OEnvProg (t : target) (n : name) (v : text)  (* env [-of act|!act] NAME = -stdout-from PROGRAM, the program printing [v] *)
 | OCd (b : cdbase) (suffix : list name)        (* cd [-rel-act|-rel-tmp|-rel-result] PATH *)
 | OTimeout (t : timeout)                       (* timeout = N | none *)
 | OChildCd (b : cdbase) (suffix : list name)   (* a child process that changes ITS directory *)
@@ -229,6 +230,12 @@ Definition step (default : env) (dirs : list path) (in_setup : bool) (o : op) (s
       | Some s' => SOk s'
       | None => SOutOfFuel
       end
+  | OEnvProg t n v =>
+      (* ModifierAdvForSet.primitive: the value is the program's output; then as a constant value *)
+      match apply_all default (MSet n v) (appliers in_setup t) s with
+      | Some s' => SOk s'
+      | None => SOutOfFuel
+      end
   | OCd b suffix =>
       match walk (base_dir (st_cwd s) b) suffix with
       | Some d => if existsb (path_eqb d) dirs
@@ -242,10 +249,15 @@ Definition step (default : env) (dirs : list path) (in_setup : bool) (o : op) (s
   end.
 
 (** ** Observations: what a child process started at some point sees *)
+(** which process: an ordinary child process (an instruction's program, the act program), or the
+    [k]-th run of the program that computes the VALUE of an env instruction (one run per applier) *)
+Inductive role := RProcess | RValue (k : nat).
+
 Record obs := Obs {
   o_env : env;
   o_cwd : path;
-  o_timeout : timeout }.     (* the timeout handed to the process executor for it *)
+  o_timeout : timeout;       (* the timeout handed to the process executor for it *)
+  o_role : role }.
 
 Inductive phase_id := PSetup | PBeforeAssert | PAssert | PCleanup.
 Inductive point := PtInstr (p : phase_id) (idx : nat) | PtAct.
@@ -253,12 +265,35 @@ Inductive point := PtInstr (p : phase_id) (idx : nat) | PtAct.
 (** a non-act process: [_post_sds_environment] - the read-only view of the non-act environ
     ([None]: inherits os.environ = the default) and the current timeout *)
 Definition obs_non_act (default : env) (s : state) : obs :=
-  Obs (populated default (st_nonact s)) (st_cwd s) (st_timeout s).
+  Obs (populated default (st_nonact s)) (st_cwd s) (st_timeout s) RProcess.
 
 (** the act process: [for_atc] - the act environ and the timeout of the environment built by
     [_construct_act_phase_executor] *)
 Definition obs_act (default : env) (s : state) : obs :=
-  Obs (populated default (st_act s)) (st_cwd s) (st_timeout s).
+  Obs (populated default (st_act s)) (st_cwd s) (st_timeout s) RProcess.
+
+(** the program computing the value of an env instruction: [ModifierApplier*.apply] resolves the
+    value with [_AppEnvConstructor.of(environ of the set being changed, before it is populated)] -
+    the timeout of the instruction's environment and that set ([None]: inherits) - once per applier,
+    in the order of the appliers; the act applier changes only the act set, so every run sees the
+    sets as they were when the instruction started *)
+Fixpoint obs_value (default : env) (k : nat) (aps : list applier) (s : state) : list obs :=
+  match aps with
+  | [] => []
+  | a :: aps' =>
+      Obs (populated default (match a with ApAct => st_act s | ApNonAct => st_nonact s end))
+          (st_cwd s) (st_timeout s) (RValue k) :: obs_value default (S k) aps' s
+  end.
+
+(** the processes the instruction [o], number [idx] of phase [p], starts from state [s] *)
+Definition processes_of (default : env) (p : phase_id) (idx : nat) (o : op) (s : state) : list (point * obs) :=
+  match o with
+  | OProbe => [(PtInstr p idx, obs_non_act default s)]
+  | OEnvProg t _ _ =>
+      map (fun ob => (PtInstr p idx, ob))
+          (obs_value default 0 (appliers (match p with PSetup => true | _ => false end) t) s)
+  | _ => []
+  end.
 
 Inductive status := Done | Halted | OutOfFuel.
 
@@ -268,10 +303,7 @@ Fixpoint run_ops (default : env) (dirs : list path) (p : phase_id) (idx : nat) (
   match ops with
   | [] => ([], s, Done)
   | o :: ops' =>
-      let here := match o with
-                  | OProbe => [(PtInstr p idx, obs_non_act default s)]
-                  | _ => []
-                  end in
+      let here := processes_of default p idx o s in
       match step default dirs (match p with PSetup => true | _ => false end) o s with
       | SOk s' => let '(t, s'', r) := run_ops default dirs p (S idx) ops' s' in (here ++ t, s'', r)
       | SHardError s' => (here, s', Halted)
